@@ -235,25 +235,28 @@ func (group *Group) Dispose() {
 		group.psPubSession.Dispose()
 	}
 
+	// the sets are emptied, not set to nil: a session whose play / GET / DESCRIBE was already on its way when the
+	// server was told to shut down is still added to its (disposed) group afterwards, and an assignment to a nil
+	// map would panic in the goroutine of that connection
 	for session := range group.rtmpSubSessionSet {
 		session.Dispose()
 	}
-	group.rtmpSubSessionSet = nil
+	group.rtmpSubSessionSet = make(map[*rtmp.ServerSession]struct{})
 
 	for session := range group.rtspSubSessionSet {
 		session.Dispose()
 	}
-	group.rtspSubSessionSet = nil
+	group.rtspSubSessionSet = make(map[*rtsp.SubSession]struct{})
 
 	for session := range group.httpflvSubSessionSet {
 		session.Dispose()
 	}
-	group.httpflvSubSessionSet = nil
+	group.httpflvSubSessionSet = make(map[*httpflv.SubSession]struct{})
 
 	for session := range group.httptsSubSessionSet {
 		session.Dispose()
 	}
-	group.httptsSubSessionSet = nil
+	group.httptsSubSessionSet = make(map[*httpts.SubSession]struct{})
 
 	group.delIn()
 }
